@@ -87,6 +87,17 @@ def usesScal (t : Nat) : Expr → Bool
       usesScal t a || usesScal t b
   | .neg a | .abs a | .toInt a | .toReal a => usesScal t a
 
+/-- Syntactic criterion: the value is an integer whenever the arguments marked by `isInt` are
+integer-valued (`INT(..)` always is; `/`, `**`, `MOD` and unknown constructs are not accepted). -/
+def intValued (isInt : Nat → Bool) : Expr → Bool
+  | .fld i | .scal i => isInt i
+  | .lit _ d => d == 1
+  | .add a b | .sub a b | .mul a b | .sign a b | .min a b | .max a b =>
+      intValued isInt a && intValued isInt b
+  | .neg a | .abs a | .toReal a => intValued isInt a
+  | .toInt _ => true
+  | .div _ _ | .pow _ _ | .mod _ _ | .unk _ => false
+
 /-! ## The generated code: one statement inside a DoF loop -/
 
 inductive Stmt where
@@ -210,6 +221,8 @@ def Builtin.isReduction (b : Builtin) : Bool := b.args.any (fun a => a.access ==
 /-- position of the single argument that is written (write/readwrite/sum) -/
 def Builtin.written (b : Builtin) : List Nat :=
   (List.range b.args.length).filter fun i => (b.args.getD i default).access ∈ [1, 2, 3]
+
+def Builtin.isIntArg (b : Builtin) (i : Nat) : Bool := (b.args.getD i default).dtype == 1
 
 def Doc.target : Doc → Nat
   | .arrayAssign t _ | .sum t _ | .randomFill t => t
